@@ -165,3 +165,26 @@ func zzC11gAllTypes() {
 	vf.Assert("round-trip-equal", vf.CanonEqual(m, back))
 	vf.Reach("end")
 }
+
+// C15.c2: the connect request carries the ping interval and timeout at whole-second resolution:
+// the wire value is the configured duration truncated to seconds, and decodes to that many seconds.
+func zzC15c2ConnectRequestSeconds() {
+	iv := vf.Dur("interval", 1<<22)
+	to := vf.Dur("timeout", 1<<22)
+	m := &message.ConnectRequest{RequestID: message.RequestID(vf.U32("rid")), ProtocolVersion: "2.0.0", NodeID: "node", PingInterval: iv, PingTimeout: to}
+	pb, err := WireToProto(m)
+	vf.Assert("to-proto-ok", err == nil && pb != nil)
+	if err != nil || pb == nil {
+		return
+	}
+	w := pb.Message.(*autogen.Message_ConnectRequest).ConnectRequest
+	vf.Assert("interval-whole-seconds", w.PingInterval == uint32(iv/time.Second))
+	vf.Assert("timeout-whole-seconds", w.PingTimeout == uint32(to/time.Second))
+	back, err2 := ProtoToWire(pb)
+	g, ok := back.(*message.ConnectRequest)
+	vf.Assert("to-wire-ok", err2 == nil && ok)
+	if ok {
+		vf.Assert("decoded-interval", g.PingInterval == iv/time.Second*time.Second && g.PingTimeout == to/time.Second*time.Second)
+	}
+	vf.Reach("end")
+}
